@@ -259,6 +259,12 @@ def run_random(spec, counters, viols, nontrivial):
         seq = [r.choice(alpha) for _ in range(2000)]
         # sprinkle sub-interval jitter
         seq = [(dt + r.choice([0, 0, 0.01, 0.3]), a, c) for dt, a, c in seq]
+        if j % 2:
+            # more peers: neighbours of the others in every textual / numeric sense (IPv4-mapped forms that share their
+            # first bytes, hosts of one /64, an address that extends another as a string) - each is a peer of its own
+            more = ["::ffff:10.0.0.1", "::ffff:192.168.5.5", "2001:db8::2", "2001:db8::1:1", "10.0.0.11", "64:ff9b::a00:1", "64:ff9b::c0a8:505"]
+            seq = [(dt, (r.choice(more) if a in (A1, A2) and r.random() < 0.4 else a), c) for dt, a, c in seq]
+            counters["neighbour_address_sequences"] = counters.get("neighbour_address_sequences", 0) + 1
         judge_sequence(rsi, seq, counters, viols, nontrivial)
         if len(viols) > 50:
             break
